@@ -5,6 +5,7 @@ mod gstd;
 mod pool;
 mod props;
 mod proto;
+mod rtype;
 mod runner;
 mod tape;
 mod worker;
